@@ -10,6 +10,21 @@ from mir import const_bool, const_int, const_str, op_place, place_proj, place_st
 UNKNOWN = object()
 
 
+def parse_char_literal(d):
+    """Rust char literal as printed by rustc ('a', '\\'', '\\n', '\\u{1F600}') -> code point."""
+    d = str(d)
+    if len(d) >= 3 and d[0] == "'" and d[-1] == "'":
+        inner = d[1:-1]
+        if inner.startswith("\\u{") and inner.endswith("}"):
+            return int(inner[3:-1], 16)
+        esc = {"\\n": "\n", "\\t": "\t", "\\r": "\r", "\\\\": "\\", "\\'": "'", '\\"': '"', "\\0": "\0"}
+        if inner in esc:
+            return ord(esc[inner])
+        if len(inner) == 1:
+            return ord(inner)
+    return None
+
+
 class Path:
     __slots__ = ("blocks", "events", "ret", "env", "forks")
 
@@ -44,7 +59,10 @@ class Interp:
                 return ("str", s)
             d = str(k.get("v", k.get("d")))
             if k.get("ty") == "char":
-                return ("char", d)
+                cp = parse_char_literal(d)
+                return cp if cp is not None else ("char", d)
+            if k.get("promoted") is not None:
+                return ("promoted", k["promoted"])
             return ("const", d)
         p = op_place(o)
         return self.eval_place(p, st, env)
@@ -67,6 +85,8 @@ class Interp:
                 cur = cur[1][idx] if idx < len(cur[1]) else UNKNOWN
             elif e[0] == "*" and isinstance(cur, tuple) and cur and cur[0] == "ref":
                 cur = self.eval_place(cur[1], st, env)
+            elif e[0] == "*" and isinstance(cur, tuple) and cur and cur[0] == "promoted":
+                pass
             else:
                 cur = UNKNOWN
         if cur is not UNKNOWN:
@@ -141,9 +161,11 @@ class Interp:
         return UNKNOWN
 
     # ------------------------------------------------------------------ walk
-    def run(self, env, start=0, st0=None):
-        """Returns list of Path. env: {place string: value}; values: bool | int | ('variant', name)."""
+    def run(self, env, start=0, st0=None, stops=()):
+        """Returns list of Path. env: {place string: value}; values: bool | int | ('variant', name).
+        `stops`: blocks at which a path ends with event ('stop', block)."""
         out = []
+        stops = set(stops)
         stack = [(start, dict(st0 or {}), [], [], [])]
         while stack and len(out) < self.max_paths:
             bi, st, blocks, events, forks = stack.pop()
@@ -153,6 +175,12 @@ class Interp:
                 if n > self.max_len or blocks.count(bi) > 2:
                     p = Path()
                     p.blocks, p.events, p.ret, p.forks = blocks, events + [("cut", bi)], UNKNOWN, forks
+                    out.append(p)
+                    break
+                if bi in stops and blocks:
+                    p = Path()
+                    p.blocks, p.events, p.ret, p.forks = blocks, events + [("stop", bi)], UNKNOWN, forks
+                    p.env = st
                     out.append(p)
                     break
                 blocks = blocks + [bi]
